@@ -6,6 +6,9 @@ A linear form is (coeffs: dict atom -> int, const: int) meaning  sum(coef*atom) 
 A fact / query is a linear form L with the reading  L <= 0.
 """
 import itertools
+import re
+
+_TO_BYTES = re.compile(r"^std::num::<impl [ui](8|16|32|64|128|size)>::to_(?:be|le|ne)_bytes$")
 
 
 def lin_add(a, b, kb=1):
@@ -103,6 +106,10 @@ class Lin:
                 return self.len_of(base)
         if v[0] == "arr":
             return const(len(v[1]))
+        if t and t[0] == "call":
+            mb = _TO_BYTES.match(t[1])
+            if mb:
+                return const({"size": 8}.get(mb.group(1), 0) or int(mb.group(1)) // 8)     # uN::to_be_bytes(): [u8; N/8]
         if v[0] == "vec":
             # a byte vector built on the path: appended slices contribute their lengths, pushed bytes one each
             tot = const(0)
@@ -201,6 +208,22 @@ def aux_facts(lin, forms):
         if a in seen or not isinstance(a, tuple):
             continue
         seen.add(a)
+        if a and a[0] == "field" and a[2] == 0 and isinstance(a[1], tuple) and a[1] and a[1][0] == "call" and len(a[1]) > 2 \
+                and a[1][1].split("::")[-1] in ("position", "rposition") and "Iterator" in a[1][1] and a[1][2]:
+            # Some(i) = iter.position(..) over the elements of x (no filtering adaptor in between): i < len(x)
+            src = lin.expand(a[1][2][0])
+            for _ in range(6):
+                if not (isinstance(src, tuple) and src and src[0] == "sym" and src[1][0] == "call" and src[1][2]):
+                    break
+                nm2 = src[1][1].split("::")[-1]
+                if nm2 in ("copied", "cloned", "enumerate", "by_ref", "into_iter", "map"):
+                    src = lin.expand(src[1][2][0])
+                    continue
+                if nm2 in ("iter", "iter_mut"):
+                    ln = lin.len_of(lin.expand(src[1][2][0]))
+                    out.append(lin_add(lin_add(atom(a), ln, -1), const(1)))
+                    work.extend(ln[0])
+                break
         if a and a[0] == "call" and len(a) > 2:
             nm = a[1].split("::")[-1]
             args = [x for x in a[2] if not (isinstance(x, tuple) and x and x[0] == "targs")]
